@@ -41,6 +41,8 @@ def check(d, pid, seed):
     env = dict(os.environ, VERIF_REPO=d, VERIF_SEED=seed, VERIF_EVIDENCE_DIR=os.path.join(d, ".evidence"), VERIF_REPLAY_DIR="/tmp/verif_replays")
     r = subprocess.run(["/verif/check", pid, "--tier", "quick"], env=env, capture_output=True, text=True)
     v = [l for l in r.stdout.splitlines() if l.startswith("violation:")]
+    if r.returncode == 1 and not any(l.startswith("VIOLATION property=") for l in r.stdout.splitlines()):
+        r.returncode = 2  # a crash of the check itself is never a detection
     return r.returncode, (v[0][:160] if v else (r.stderr.strip().splitlines()[-1][:160] if r.returncode == 2 and r.stderr.strip() else ""))
 
 
